@@ -112,6 +112,7 @@ package note
 //@   pure
 //@   noprune
 //@   ensures err == nil ==> spec.validInterval(d.Value, qual(d.Name))
+//@   ghostensures (err == nil) == spec.pdOk(s) && d.Value == spec.pdNum(s) && d.Name == spec.pdName(s)
 
 //@ func lemmaC15RoundTrip returns (r, err)
 //@   enumerate name 0 8
